@@ -27,6 +27,7 @@ import (
 type nativeRegexp struct {
 	re  *regexp.Regexp
 	src string
+	sym []Int // symbolic pattern bytes (re == nil)
 }
 
 func (ex *Exec) stdModel(name string, fn *ssa.Function, args []Val, caller *frame) (Val, bool) {
@@ -62,19 +63,32 @@ func (ex *Exec) stdModel(name string, fn *ssa.Function, args []Val, caller *fram
 	case "regexp.Compile", "regexp.MustCompile":
 		pat, ok := args[0].(string)
 		if !ok {
-			panic(unsupported{"regexp.Compile of symbolic pattern"})
+			// symbolic pattern: validity is an uninterpreted predicate of the bytes (RE2 syntax is trusted to the
+			// standard library); a valid symbolic pattern can only be matched through another uninterpreted predicate
+			pb := strBytes(args[0])
+			if ex.decide(ex.ufPredicate("re_valid", pb)) {
+				nr := &nativeRegexp{re: nil, src: "<symbolic>", sym: pb}
+				if name == "regexp.MustCompile" {
+					return ex.nativePtr(nr), true
+				}
+				return tuple{ex.nativePtr(nr), iface{}}, true
+			}
+			if name == "regexp.MustCompile" {
+				panic(goPanic{iface{t: types.Typ[types.String], v: "regexp: Compile: invalid pattern"}})
+			}
+			return tuple{(*Val)(nil), ex.errorVal("error parsing regexp")}, true
 		}
 		re, err := regexp.Compile(pat)
 		if name == "regexp.MustCompile" {
 			if err != nil {
 				panic(goPanic{iface{t: types.Typ[types.String], v: "regexp: Compile(" + strconv.Quote(pat) + "): " + err.Error()}})
 			}
-			return ex.nativePtr(&nativeRegexp{re, pat}), true
+			return ex.nativePtr(&nativeRegexp{re: re, src: pat}), true
 		}
 		if err != nil {
 			return tuple{(*Val)(nil), ex.nativeError(err)}, true
 		}
-		return tuple{ex.nativePtr(&nativeRegexp{re, pat}), iface{}}, true
+		return tuple{ex.nativePtr(&nativeRegexp{re: re, src: pat}), iface{}}, true
 	case "(*regexp.Regexp).Match", "(*regexp.Regexp).MatchString":
 		nr := ex.nativeOf(args[0]).(*nativeRegexp)
 		var subj []Int
@@ -82,6 +96,10 @@ func (ex *Exec) stdModel(name string, fn *ssa.Function, args []Val, caller *fram
 			subj = bytesOfSlice(s)
 		} else {
 			subj = strBytes(args[1])
+		}
+		if nr.re == nil {
+			all := append(append([]Int(nil), nr.sym...), subj...)
+			return ex.ufPredicate(fmt.Sprintf("re_symmatch_%d", len(nr.sym)), all), true
 		}
 		if cb, ok := concreteBytes(subj); ok {
 			return Bool{C: nr.re.Match(cb)}, true
